@@ -7,4 +7,4 @@ From Clikit Require Import Base.Prelude Model.Dispatcher Model.Gate Model.Flags 
 Definition z_of_digits (neg : bool) (ds : list Z) : Z :=
   let v := fold_left (fun acc d => (acc * 10 + d)%Z) ds 0%Z in if neg then Z.opp v else v.
 Definition z_to_text (z : Z) : list N := Conv.dec_text z.
-Extraction "model.ml" z_of_digits z_to_text run_C12 run_C10 run_C07 run_C08 run_C06 run_C01 run_C02 run_C05 run_C03 run_C04 run_C09 run_C15 run_C16 run_C18 run_C17 run_C19 run_C11 run_C13 run_C13G run_C14 run_C20 run_C01S run_C01T run_C10S run_C18T run_C19F run_C12X run_C10IO run_C11IO.
+Extraction "model.ml" z_of_digits z_to_text run_C12 run_C10 run_C07 run_C08 run_C06 run_C01 run_C02 run_C05 run_C03 run_C04 run_C09 run_C15 run_C16 run_C18 run_C17 run_C19 run_C11 run_C13 run_C13G run_C14 run_C20 run_C01S run_C01T run_C10S run_C18T run_C19F run_C12X run_C10IO run_C11IO run_C12XN.
